@@ -115,7 +115,7 @@ struct Corruption { std::string field; size_t off; int width; uint64_t value; st
 static std::vector<Corruption> c17_corruptions(const std::string& img, Rng& rng, bool thorough) {
   std::vector<Corruption> v; Layout l = layout_of(img);
   for (int i = 0; i < 4; i++) { v.push_back({"hdr.magic", (size_t) i, 1, (uint64_t) ((unsigned char) img[i] ^ 0x20), "flip case bit"}); v.push_back({"hdr.magic", (size_t) i, 1, 0, "zero"}); }
-  for (int x : {0, 1, 20, 22, 255}) v.push_back({"hdr.version", 4, 1, (uint64_t) x, "set"});
+  for (int x : {0, 1, 2, 10, 20, 21, 22, 23, 24, 127, 255}) if (x != (unsigned char) img[4]) v.push_back({"hdr.version", 4, 1, (uint64_t) x, "set"});
   for (int x : {0, 1, 11, 13, 15, 16, 17, 255}) if (x != l.nbuf) v.push_back({"hdr.num_buffers", 5, 1, (uint64_t) x, "set"});
   for (int i = 0; i < l.nbuf; i++) {
     size_t eo = 6 + 12 * i; uint64_t off; uint32_t sz; memcpy(&off, img.data() + eo, 8); memcpy(&sz, img.data() + eo + 8, 4);
@@ -193,7 +193,11 @@ static std::string c17_judge_corrupt(const Corruption& co, const std::string* ou
     if (kind.rfind("assert:", 0) == 0) kind = "assert";
     return "corrupt|field=" + co.field + "|outcome=" + klass + "|" + kind;
   }
-  if (out->rfind("rejected:", 0) == 0 || *out == "loaded:same") return "";
+  if (out->rfind("rejected:", 0) == 0) return "";
+  // magic and format version say what the rest of the file means: a file that carries another value there is rejected,
+  // whether or not the remaining bytes happen to parse
+  if (*out == "loaded:same" && (co.field == "hdr.magic" || co.field == "hdr.version")) { klass = "inconsistent-header-accepted"; detail = co.field + " " + co.what + " -> " + std::to_string(co.value) + ": the file was loaded"; return "corrupt|field=" + co.field + "|outcome=loaded"; }
+  if (*out == "loaded:same") return "";
   if (*out == "touched") { klass = "rules-touched"; detail = ""; return "corrupt|field=" + co.field + "|outcome=rules-touched"; }
   klass = "corrupt-file-loaded-misbehaves"; detail = co.field + " " + co.what + " -> " + std::to_string(co.value) + ": loaded rules behave differently";
   return "corrupt|field=" + co.field + "|outcome=loaded-different";
@@ -266,9 +270,12 @@ static void c17_run_case(C17Case& c, Rng& rng, bool thorough, Stats& st, int cas
 // end-to-end: yr_rules_save(path) onto a disk that fills at byte n, then yr_rules_load(path).
 // Everything runs in a child: a failed save leaves the original rule set unusable on the
 // current tree (a C08 finding), which must not take the worker down.
-static void c17_disk_full_point(const C17Case& c, size_t n, std::string& save_rc, std::string& res, IsoResult& r) {
+static void c17_disk_full_point(const C17Case& c, size_t n, std::string& save_rc, std::string& res, IsoResult& r, bool over_existing = false) {
   std::string path = tmp_dir() + "/c17-full." + std::to_string((int) getpid()) + ".yarc";
   unlink(path.c_str());
+  // an older, complete compiled file may already be at the path (same section layout, other bytes): what the interrupted
+  // save leaves behind must not be "new head + old tail" that loads
+  if (over_existing) { std::string old = c.image; for (size_t i = 64; i < old.size(); i++) if (isalpha((unsigned char) old[i])) old[i] ^= 0x20; write_file(path, old); }
   r = sim_isolate([&] {
     CompileResult cr = compile_rules(c.spec);
     if (!cr.rules) { iso_emit("S compile-failed\n"); return; }
@@ -298,12 +305,13 @@ static void c17_disk_full(C17Case& c, Rng& rng, bool thorough, Stats& st, int ca
   for (int k = 0; k < points; k++) {
     size_t n = k == 0 ? 0 : k == 1 ? c.image.size() - 1 : k == 2 ? l.bodies_end + 4 : rng.below(c.image.size());
     std::string save_rc, res; IsoResult r;
-    c17_disk_full_point(c, n, save_rc, res, r);
-    st.runs++; st.c["faults_fired.disk_full_at_byte_n"]++;
+    bool over = (k % 2) == 1;
+    c17_disk_full_point(c, n, save_rc, res, r, over);
+    st.runs++; st.c["faults_fired.disk_full_at_byte_n"]++; if (over) st.c["faults_fired.disk_full_while_overwriting_an_older_file"]++;
     st.c["save_on_full_disk." + (save_rc.empty() ? std::string("died") : save_rc)]++;
     Hash64 h; h.add("full"); h.addu(case_idx); h.addu(n); st.hash(h.h);
     std::string klass, detail; std::string sig = c17_judge_diskfull(l, n, save_rc, res, r, klass, detail);
-    if (!sig.empty()) { st.c["viol." + klass]++; if (reported.insert(sig).second) emit_violation("C17", klass, sig, detail, c17_replay(c, "diskfull", n, nullptr)); }
+    if (!sig.empty()) { if (over) sig += "|over-existing-file"; st.c["viol." + klass]++; if (reported.insert(sig).second) { J rp = c17_replay(c, "diskfull", n, nullptr); rp.set("over_existing", over); emit_violation("C17", klass, sig, detail + (over ? " [an older complete file was at the path]" : ""), rp); } }
   }
 }
 
@@ -694,8 +702,9 @@ int main(int argc, char** argv) {
         sig = c17_judge_transient(k, total, save_rc, res, r, klass, detail);
       } else if (kind == "diskfull") {
         size_t n = (size_t) c["n"].num(); std::string save_rc, res; IsoResult r;
-        c17_disk_full_point(cc, n, save_rc, res, r);
-        sig = c17_judge_diskfull(l, n, save_rc, res, r, klass, detail);
+        bool over = c["over_existing"].truthy();
+        c17_disk_full_point(cc, n, save_rc, res, r, over);
+        sig = c17_judge_diskfull(l, n, save_rc, res, r, klass, detail); if (!sig.empty() && over) sig += "|over-existing-file";
       } else {
         Corruption co{c["field"].str(), (size_t) c["off"].num(), (int) c["width"].num(), (uint64_t) c["value"].num(), c["what"].str()};
         std::string img = apply_corruption(cc.image, co); std::string res; bool have = false;
